@@ -542,8 +542,8 @@ class Worker:
         preprocess = getattr(self, 'preprocess', None)
 
         while True:
-            if buffer.full():
-                with buffer._not_full:
+            with buffer._not_full:
+                while buffer.full():
                     buffer._not_full.wait()
 
             # Multiple workers in separate processes may be competing
